@@ -15,13 +15,14 @@ Inductive op :=
 | Extend (vs : list elt)
 | Insert (i : Z) (x : elt)
 | SetItem (i : Z) (x : elt)       (* x.f[i] = v ; IndexError when out of range *)
+| SetSlice (i j : Z) (vs : list elt)  (* x.f[i:j] = [...]  (step 1) *)
 | Add (x : elt)
 | Update (vss : list (list elt)). (* x.f.update(it1, it2, ...) *)
 
 Definition applicable (k : kind) (o : op) : bool :=
   match k, o with
   | _, Assign _ | _, AssignSelf | _, IAug _ => true
-  | KList, Append _ | KList, Extend _ | KList, Insert _ _ | KList, SetItem _ _ => true
+  | KList, Append _ | KList, Extend _ | KList, Insert _ _ | KList, SetItem _ _ | KList, SetSlice _ _ _ => true
   | KSet, Add _ | KSet, Update _ => true
   | _, _ => false
   end.
@@ -52,6 +53,12 @@ Definition py_setitem (i : Z) (x : elt) (l : list elt) : option (list elt) :=
   let j := (if i <? 0 then i + zlen l else i)%Z in
   if ((0 <=? j) && (j <? zlen l))%Z then Some (replace_at (Z.to_nat j) x l) else None.
 
+(* l[i:j] = vs: both bounds clamped like insert positions, an empty or inverted range inserts at i *)
+Definition py_setslice (i j : Z) (vs : list elt) (l : list elt) : list elt :=
+  let a := insert_pos l i in
+  let b := Nat.max a (insert_pos l j) in
+  firstn a l ++ vs ++ skipn b l.
+
 (* one operation: new contents, and whether Python raises IndexError *)
 Definition py_step (k : kind) (o : op) (l : list elt) : list elt * bool :=
   match k, o with
@@ -64,6 +71,7 @@ Definition py_step (k : kind) (o : op) (l : list elt) : list elt * bool :=
   | KList, Extend vs => (l ++ vs, false)
   | KList, Insert i x => (py_insert i x l, false)
   | KList, SetItem i x => match py_setitem i x l with Some l' => (l', false) | None => (l, true) end
+  | KList, SetSlice i j vs => (py_setslice i j vs l, false)
   | KSet, Add x => (set_add x l, false)
   | KSet, Update vss => (fold_left set_union vss l, false)
   | _, _ => (l, false)
